@@ -89,10 +89,14 @@ def write_fuzz_seeds(d):
                 put(1, 4, c15.compress(codec, a, 3))
     # members with several extension records of mixed kinds (no archiver writes these; the reader has to cope)
     sa = sample_archives()
-    for i in (0, 3, 4):
+    for i in (0, 3, 4, 8):
+        ng = len(_tar_groups(sa[i]))
+        own = sum(1 for g in _tar_groups(sa[i]) if g[2] in (b"L", b"K", b"x", b"g"))
         for v in range(len(_meta_samples())):
-            for fr in (0.0, 0.5, 0.99):
-                put(0, (i + v) % 8, apply_edits(sa[i], [("mrec", fr, 1000 + v, 8)]))
+            for fr in (0.0, 0.25, 0.5, 0.75, 0.99):
+                # n even: between an extension record and its header; n odd: in front of group int(fr * ng)
+                put(0, (i + v) % 8, apply_edits(sa[i], [("mrec", fr, own + v, 8)]))
+                put(0, (i + v) % 8, apply_edits(sa[i], [("mrec", fr, own + v, 7)]))
     put(2, 5, VALID_PACK)
     put(2, 0, VALID_PACK)
     put(0x12, 3, VALID_PACK)
@@ -195,7 +199,12 @@ def apply_edits(data, edits):
             own = [bytes(b[o:o + l]) for o, l, tf in gr if tf in (b"L", b"K", b"x", b"g")]
             pool = own + _meta_samples()
             src = pool[val % len(pool)]
-            dst = gr[min(len(gr) - 1, int(frac * len(gr)))][0]
+            # half of the time between an extension record and the header it belongs to (the member then has two of them)
+            mid = [gr[i][0] for i in range(1, len(gr)) if gr[i - 1][2] in (b"L", b"K", b"x") and gr[i][2] not in (b"L", b"K", b"x", b"g")]
+            if mid and n % 2 == 0:
+                dst = mid[int(frac * len(mid)) % len(mid)]
+            else:
+                dst = gr[min(len(gr) - 1, int(frac * len(gr)))][0]
             b[dst:dst] = src
             continue
         if kind == "mswap":
